@@ -18,7 +18,8 @@ def levels(tier):
             {"name": "short-n2", "pools": [[[1], [1, 1], [1, 1]]], "n": 2, "alphabet": ["page", "links", "we"], "links_batch": 1, "log_writes": True},
             {"name": "long-n1", "pools": [[[74], [74, 1], [1]], [[1, 148], [1, 100], [2]]], "sparse": True, "n": 1,
              "alphabet": ["page", "links", "we"], "links_batch": 1, "log_writes": True},
-            {"name": "clear-n2", "pools": [[[1], [1, 1], [2]]], "n": 2, "prelude_ops": True, "alphabet": ["links", "clear", "page"], "links_batch": 1, "log_writes": True},
+            {"name": "clear-n2", "pools": [[[1], [1, 1], [2]]], "n": 2, "prelude_ops": True, "alphabet": ["links", "clear", "page", "overwrite"],
+             "links_batch": 1, "log_writes": True},
         ]
     return [
         {"name": "short-n2", "pools": [[[1], [1, 1], [1, 1]]], "n": 2, "alphabet": ["page", "links", "we", "batch", "rule"], "links_batch": 2,
@@ -38,14 +39,16 @@ def harness(E):
     folder = E.fresh_folder("full")
     t = E.Traph(folder=folder, default_webentity_creation_rule=NEVER, webentity_creation_rules={})
     ref = Ref()
-    h = History(E, t, ref, pool, P["alphabet"], P)
+    opts = dict(P)
+    opts["folder"] = folder
+    h = History(E, t, ref, pool, P["alphabet"], opts)
     marks = []
     snaps = []       # model state at the completion of each request
     for i in range(P["n"]):
         h.step(i)
         marks.append(len(E.write_log()))
         snaps.append((ref.pages.copy(), [list(e) for e in ref.links]))
-    t.close()
+    h.t.close()
     log = E.write_log()
     # the cut: `w` events are complete; optionally a part of event w (an append) persisted too
     w = E.choose("cut", len(log) + 1)
